@@ -226,7 +226,8 @@ class C18(Prop):
         o = obs["placed"]
         return "%s:%s" % (case["form"], "err:" + o["err"] if "err" in o else "ok")
 
-    def finding_of(self, case, obs):
+    def _region(self, case):
+        """the catalogued placement regions (mechanism), from the case alone"""
         if not case["opt"]:
             return None
         specs = pc.ctx_specs(case["sigs"])
@@ -244,6 +245,19 @@ class C18(Prop):
         if case["form"] == "glued":
             return "F-C18a"
         return None
+
+    def finding_of(self, case, obs):
+        # attributable only when the clause that fails is the *placement* clause: base and front
+        # parse, and the placed line differs from them in core values or task calls
+        b, f, p = obs["base"], obs["front"], obs["placed"]
+        if "ok" not in b or "ok" not in f:
+            return None
+        if "ok" in p:
+            same_core = p["ok"]["core"] == f["ok"]["core"]
+            same_tasks = p["ok"]["tasks"] == b["ok"]["tasks"]
+            if same_core and same_tasks:
+                return None
+        return self._region(case)
 
     def shrink_candidates(self, case):
         if case.get("rem") is not None:
@@ -268,6 +282,113 @@ class C18(Prop):
                 yield dict(case, sigs=s2)
             except Exception:
                 pc._cache.pop(pc.sig_key(s2), None)
+
+    # ------------------------------------------------------------------
+    EFFECT_OPTIONS = [
+        # (flag spellings, value or None, setting observed by the task body, expected value)
+        (["--echo", "-e"], None, "echo", True),
+        (["--warn-only", "-w"], None, "warn", True),
+        (["--pty", "-p"], None, "pty", True),
+        (["--dry", "-R"], None, "dry", True),
+        (["--hide"], "both", "hide", "both"),
+        (["--hide"], "out", "hide", "out"),
+        (["--command-timeout", "-T"], "7", "timeout", 7),
+        (["--command-timeout", "-T"], "12", "timeout", 12),
+        (["--no-dedupe"], None, "dedupe", False),
+    ]
+
+    def extra_checks(self, tier, seed):
+        """EFFECTS (a test on the real Program.run, not modelled in Coq): task bodies record the
+        settings they see (run.echo/warn/hide/pty/dry, tasks.dedupe, timeouts.command) and the
+        kwargs they receive; a core option must have the same effect first or inside a task's
+        argument list; the remainder must arrive verbatim."""
+        rng = random.Random(seed + 18)
+        n = 120 if tier == "quick" else 1500
+        failures, evaluations = [], 0
+
+        def expected_after_dedupe(exp, dedupe):
+            out = []
+            for e in exp:
+                if dedupe and e in out:
+                    continue
+                out.append(e)
+            return out
+
+        def strip_list_defaults(specs, inv, calls):
+            # F-C01a (list-typed defaults) is C01's finding: not judged here
+            return calls
+
+        for _ in range(n):
+            sigs = pc.gen_sigs(rng, max_params=4)
+            specs = pc.ctx_specs(sigs)
+            if any(a["kind"] == "KList" and a["default"] not in ([], None) for c in specs for a in c["args"]):
+                continue
+            inv = pc.gen_invocation(rng, specs, dash_values=False)
+            if any(o["form"] == "glued" and "=" in o["val"].get("s", "")
+                   for c in inv for o in pc.flat_occs(c["occs"])):
+                continue            # F-C01b (glued value containing '=') is C01's finding
+            groups = pc.spell_groups(specs, inv)
+            spell, val, field, want = rng.choice(self.EFFECT_OPTIONS)
+            fl = rng.choice(spell)
+            if val is None:
+                opt, form = [fl], "bare"
+            else:
+                form = rng.choice(["next", "eq"] + ([] if fl.startswith("--") else ["glued"]))
+                opt = [fl, val] if form == "next" else [fl + "=" + val] if form == "eq" else [fl + val]
+            j = rng.randint(0, len(groups))
+            rem = [rng.choice(["foo", "--bar", "", "a b", "-e"]) for _ in range(rng.randint(1, 3))] \
+                if rng.random() < 0.3 else None
+            tail = (["--"] + rem) if rem is not None else []
+            base = flat(groups) + tail
+            front = opt + flat(groups) + tail
+            placed = flat(groups[:j]) + opt + flat(groups[j:]) + tail
+            case = {"sigs": sigs, "groups": groups, "opt": opt, "j": j, "flags": [fl], "rem": rem, "form": form}
+            rb, rf, rp = pc.run_effects(sigs, base), pc.run_effects(sigs, front), pc.run_effects(sigs, placed)
+            evaluations += 1
+            exp = [[nm, kw] for nm, kw in pc.expected_calls(specs, inv)]
+            what = None
+            exp = [[nm, sorted(kw, key=lambda x: x[0])] for nm, kw in exp]    # bodies record in parameter order
+            names_kw = lambda r: [[c[0], sorted(c[1], key=lambda x: x[0])] for c in r["calls"]]
+            # kwargs delivered to the bodies (base line): exactly the intended calls
+            if rb["exc"] is not None or names_kw(rb) != expected_after_dedupe(exp, True):
+                what = "task bodies did not receive the intended kwargs: %r" % (rb,)
+            elif rem is not None and rb["remainder"] != " ".join(rem):
+                what = "remainder not verbatim: %r" % (rb["remainder"],)
+            # the option in front: the setting is seen by every task
+            elif rf["exc"] is not None or any(c[2][field] != want for c in rf["calls"]) or \
+                    names_kw(rf) != expected_after_dedupe(exp, field != "dedupe"):
+                what = "core option in front has not the documented effect: %r" % (rf,)
+            else:
+                c_act, _ = active_spec(specs, groups, j)
+                shadow = c_act is not None and (pc.arg_of_flag(c_act, fl) is not None or any(
+                    a["kind"] == "KBool" and a["default"] is True and pc.to_flag_py("no-" + a["names"][0]) == fl
+                    for a in c_act["args"]))
+                if not shadow and (rp["exc"] != rf["exc"] or rp["calls"] != rf["calls"]
+                                   or rp["remainder"] != rf["remainder"]):
+                    what = "core option has a different effect inside the task's argument list: front %r placed %r" % (rf, rp)
+            if what:
+                f = {"case": case, "what": what}
+                reg = self._region(case)
+                if reg and what.startswith("core option has a different effect"):
+                    f["finding"] = reg
+                failures.append(f)
+        # F-C18d: options that Program acts upon before task parsing
+        sig1 = {"tasks": [{"name": "t", "aliases": [], "coll": None, "default": False, "params": [],
+                           "positional": None, "optional": [], "iterable": [], "incrementable": [],
+                           "auto_shortflags": True}]}
+        rf, rp = pc.run_effects(sig1, ["--version", "t"]), pc.run_effects(sig1, ["t", "--version"])
+        evaluations += 1
+        if (rf["version_printed"], len(rf["calls"])) != (rp["version_printed"], len(rp["calls"])):
+            failures.append({"case": {"sigs": sig1, "argv_front": ["--version", "t"], "argv_placed": ["t", "--version"]},
+                             "what": "--version first prints the version and runs nothing; after a task name "
+                                     "it is parsed (version=True) but the task runs and nothing is printed",
+                             "finding": "F-C18d"})
+        # known regions first so that an unknown failure is the one reported
+        failures.sort(key=lambda f: 0 if f.get("finding") else 1)
+        failures = [f for f in failures if f.get("finding")] + [f for f in failures if not f.get("finding")][:1]
+        return [{"name": "effects", "evaluations": evaluations, "failures": failures,
+                 "note": "real Program.run in task-runner mode with recording task bodies; base/front/placed "
+                         "command lines compared on delivered kwargs, settings seen, remainder"}]
 
     def mutate(self, case, rng):
         g = case["groups"]
